@@ -199,3 +199,49 @@ func init() {
 }
 
 func reflectKindName(k reflect.Kind) string { return fmt.Sprint(k) }
+
+func init() {
+	externals["(reflect.rtype).AssignableTo"] = func(fr *frame, a []value) value {
+		return types.AssignableTo(a[0].(rtype).t, a[1].(iface).v.(rtype).t)
+	}
+	externals["(reflect.rtype).ConvertibleTo"] = func(fr *frame, a []value) value {
+		return types.ConvertibleTo(a[0].(rtype).t, a[1].(iface).v.(rtype).t)
+	}
+	// go-openapi/swag name provider: JSON member name -> Go field name, from the json tags
+	foreignGlobalInit["github.com/go-openapi/swag.DefaultJSONNameProvider"] = func(i *interpreter) value {
+		t := lookupType("github.com/go-openapi/swag", "NameProvider")
+		if t == nil {
+			panic(unsupported{"swag.NameProvider type not loaded"})
+		}
+		z := zero(t)
+		return &z
+	}
+	externals["(*github.com/go-openapi/swag.NameProvider).GetGoNameForType"] = func(fr *frame, a []value) value {
+		t := a[1].(iface).v.(rtype).t
+		st, ok := t.Underlying().(*types.Struct)
+		if !ok {
+			return tuple{"", false}
+		}
+		name := a[2].(string)
+		for _, f := range jsonFields(st) {
+			if f.name == name && len(f.path) == 1 {
+				return tuple{st.Field(f.path[0]).Name(), true}
+			}
+		}
+		return tuple{"", false}
+	}
+	externals["(*github.com/go-openapi/swag.NameProvider).GetJSONNameForType"] = func(fr *frame, a []value) value {
+		t := a[1].(iface).v.(rtype).t
+		st, ok := t.Underlying().(*types.Struct)
+		if !ok {
+			return tuple{"", false}
+		}
+		name := a[2].(string)
+		for _, f := range jsonFields(st) {
+			if len(f.path) == 1 && st.Field(f.path[0]).Name() == name {
+				return tuple{f.name, true}
+			}
+		}
+		return tuple{"", false}
+	}
+}
